@@ -1,5 +1,7 @@
 import Cuke.Model.Writers
 import Cuke.Props.C12
+import Cuke.Props.C11
+import Cuke.Props.C13
 /-!
 # C01 — Run verdict: failed iff a parse error or a final scenario failure occurred
 The verdict is `execFailed` of the statistics pipeline (`Stats::execution_has_failed`), which
@@ -50,6 +52,31 @@ theorem verdict_perm_invariant (cat) (w : W) (pre pre' post post' : List Ev)
     ⟨fun ⟨e, he, x⟩ => ⟨e, hp.subset he, x⟩, fun ⟨e, he, x⟩ => ⟨e, hp.symm.subset he, x⟩⟩
   rw [this] at a
   rw [Bool.eq_iff_iff, a, b]
+
+/-! ## Normalize keeps the verdict -/
+
+/-- **A statistics writer behind `Normalize` reports the same verdict** as it would without it
+    (`.summarized().normalized()`): for every contract-abiding concurrent stream, whatever order
+    `Normalize` releases the events in. (`Summarize<Normalize<_>>`, the default pipeline, is an instance of
+    `summVerdict_iff` with `w := .norm _`.) Uses C11 (`norm_T1_finished_last`) and C13 (`norm_prefilter`). -/
+theorem normalize_keeps_verdict (cat) (w : W) (pre : List Ev) (h : ∀ e ∈ pre, e.isFinished = false)
+    (hs : C11.SafeRun Norm.init (pre ++ [Ev.finished]) = true) :
+    execFailed (.norm (.summ w)) (runW cat (.norm (.summ w)) (pre ++ [Ev.finished])).1 =
+      execFailed (.summ w) (runW cat (.summ w) (pre ++ [Ev.finished])).1 := by
+  have hnf : ∀ e ∈ pre, e ≠ Ev.finished := by
+    intro e he heq
+    have := h e he
+    rw [heq] at this
+    cases this
+  obtain ⟨n, outs, pre', hrun, hout, hp⟩ := C11.norm_T1_finished_last pre hnf hs
+  rw [C13.norm_prefilter cat (.summ w) _ n outs hrun, hout]
+  show execFailed (.summ w) (runW cat (.summ w) (pre' ++ [Ev.finished])).1 = _
+  exact verdict_perm_invariant cat w pre' pre [] [] (fun e he => h e (hp.subset he)) hp
+
+/-- non-vacuity: an interleaved stream with a final failure behind `Normalize` -/
+example : C11.SafeRun Norm.init C11.exStream = true ∧
+    execFailed (.norm (.summ (.leaf 0))) (runW (catx 1) (.norm (.summ (.leaf 0))) C11.exStream).1 = false := by
+  decide +kernel
 
 /-! ## Combinators keep the verdict -/
 
